@@ -98,7 +98,8 @@ Qed.
 
 Lemma cd_body_spec X y lc j wa Xwa wb Xwb : (0 <= j)%Z ->
   cd_body X y lc j (wa, Xwa) = Ok (wb, Xwb) ->
-  exists Xj old step g v,
+  exists Xj old step g v lcj,
+    get_idx lc j = Ok lcj /\ ((lcj <> 0 /\ step = 1 / lcj) \/ (lcj = 0 /\ step = 1000)) /\
     mcol X j = Ok Xj /\ get_idx wa j = Ok old /\ (Z.to_nat j < length wa)%nat /\
     gradient_scalar X y wa Xwa j = Ok g /\ prox_1d (old - g * step) step j = Ok v /\
     wb = set_nth wa (Z.to_nat j) v /\
@@ -111,7 +112,13 @@ Proof.
   apply bind_ok in H0 as (w0 & H9 & H0). apply bind_ok in H0 as (t9 & H10 & H0).
   destruct (set_idx_nonneg _ _ _ _ Hj H9) as [-> Hlt].
   pose proof (get_idx_set_nth_same _ _ _ _ Hj Hlt H10) as ->.
-  exists Xj, old, step, g, v. repeat split; try assumption.
+  exists Xj, old, step, g, v, t1.
+  assert (Hst : (t1 <> 0 /\ step = 1 / t1) \/ (t1 = 0 /\ step = 1000)).
+  { cbn [feqb fofZ fdiv RNum] in H4. unfold Reqb in H4. destruct (Req_EM_T t1 0) as [e|ne]; cbn [negb] in H4.
+    - right. unfold ret in H4. inversion H4. auto.
+    - left. rewrite H1 in H4. cbn [bind] in H4. destruct (Req_EM_T t1 0); [contradiction|]. cbn [bind] in H4.
+      unfold ret in H4. inversion H4. auto. }
+  split; [exact H1|]. split; [exact Hst|]. repeat split; try assumption.
   - destruct (negb (feqb v old)) eqn:Hb.
     + apply bind_ok in H0 as (t10 & H11 & H0). unfold ret in H0. inversion H0. reflexivity.
     + unfold ret in H0. inversion H0. reflexivity.
@@ -133,7 +140,7 @@ Proof.
   apply (for_each_inv' Inv _ _ _ _ Hrun); [split; [exact H0|reflexivity]|].
   intros j [wa Xwa] [wb Xwb] Hin [HC HL] Hb. simpl in HC, HL. unfold Inv; simpl.
   rewrite Forall_forall in Hws. specialize (Hws j Hin).
-  destruct (cd_body_spec _ _ _ _ _ _ _ _ Hws Hb) as (Xj & old & step & g & v & Hcol & Hold & Hlt & _ & _ & -> & Hx).
+  destruct (cd_body_spec _ _ _ _ _ _ _ _ Hws Hb) as (Xj & old & step & g & v & lcj & _ & _ & Hcol & Hold & Hlt & _ & _ & -> & Hx).
   split; [|rewrite set_nth_length; assumption].
   destruct Hx as [->|[-> ->]].
   - apply cons_step; try assumption. lia.
